@@ -438,3 +438,47 @@ Theorem C03_add_node_accepted : forall w ti p sti src e k b deep, valid_add_node
   fst (step w (OAddNode ti p sti src e k b deep)) = Ok [next w].
 Proof. exact add_node_progress. Qed.
 Print Assumptions C03_add_node_accepted.
+
+(* ====================================================================================== *)
+(* Audit C03 (medium-low): refusing shapes that matched no theorem above -
+   OSetData with new data (id recomputed through the callback) / new data AND an explicit id / with_clones=True,
+   ORemove with keep_children=True and with_clones=True.  (OTreeFromDict and nested OFromDict: section above.) *)
+Theorem C03_set_data_refused_any : forall w ti n d e wcl t s did' x q0 i l y,
+  WFw w -> get_tree w ti = Some t -> get_node n (forest_of t) = Some s -> (d <> None \/ e <> None) ->
+  sd_did' t (sd_new_data s d) e = Some did' -> sd_new_did s did' = Some x ->
+  node_loc n (forest_of t) = Some (q0, i, l) -> In y l -> rid y <> n -> rdid y = x ->
+  (Nat.ltb 1 (length (idx_get (rdid s) (idx t))) = false \/ wcl = Some false) ->
+  fst (step w (OSetData ti n d e wcl)) = Err EUnique.
+Proof. exact set_data_refused_any. Qed.
+Print Assumptions C03_set_data_refused_any.
+
+Theorem C03_set_data_refused_any_group : forall w ti n d e t s did' x m q0 i l y,
+  WFw w -> get_tree w ti = Some t -> get_node n (forest_of t) = Some s -> (d <> None \/ e <> None) ->
+  sd_did' t (sd_new_data s d) e = Some did' -> sd_new_did s did' = Some x ->
+  Nat.ltb 1 (length (idx_get (rdid s) (idx t))) = true ->
+  In m (idx_get (rdid s) (idx t)) -> node_loc m (forest_of t) = Some (q0, i, l) ->
+  In y l -> rdid y = x -> ~ In (rid y) (idx_get (rdid s) (idx t)) ->
+  fst (step w (OSetData ti n d e (Some true))) = Err EUnique.
+Proof. exact set_data_refused_any_group. Qed.
+Print Assumptions C03_set_data_refused_any_group.
+
+Theorem C03_remove_refused_iff : forall w ti n (keep wc : bool) t d, get_tree w ti = Some t -> did_of n (forest_of t) = Some d ->
+  let victims := if wc then filter (fun c => negb (Nat.eqb c n)) (idx_get d (idx t)) ++ [n] else [n] in
+  (fst (step w (ORemove ti n keep wc)) = Err EUnique <->
+   keep = true /\ exists v q0 i l, In v victims /\ node_loc v (forest_of t) = Some (q0, i, l) /\
+                   ~ NoDup (map rdid (flat_map (contract_t victims) l))) /\
+  (fst (step w (ORemove ti n keep wc)) = Err EUnique -> snd (step w (ORemove ti n keep wc)) = w) /\
+  (fst (step w (ORemove ti n keep wc)) = Err EUnique \/ fst (step w (ORemove ti n keep wc)) = Ok []).
+Proof. exact remove_refused_iff. Qed.
+Print Assumptions C03_remove_refused_iff.
+
+Example C03_unmatched_shapes_nonvacuous :
+  let dd z := D z z z false [z] in
+  (* 1 = a(3 = c), 2 = b(4 = c', 5 = x): clones 3,4 of c *)
+  let w := run [ONewTree false None; OAdd 0 0 (dd 1%Z) None None BNone; OAdd 0 0 (dd 2%Z) None None BNone;
+                OAdd 0 1 (dd 3%Z) None None BNone; OAddNode 0 2 0 3 None None BNone None; OAdd 0 2 (dd 5%Z) None None BNone;
+                OAdd 0 0 (dd 3%Z) None None BNone] empty_world in
+  fst (step w (ORemove 0 1 true true)) = Err EUnique /\                              (* c would come up next to the top-level c *)
+  fst (step w (OSetData 0 3 (Some (dd 5%Z)) None (Some true))) = Err EUnique /\      (* the clone below b would sit next to x *)
+  fst (step w (OSetData 0 5 (Some (dd 9%Z)) (Some (DInt 3)) None)) = Err EUnique.    (* new data and an explicit id *)
+Proof. vm_compute. repeat split. Qed.
